@@ -215,7 +215,8 @@ def machine_factory(ctx):
                 self.w.apply(op)
             except Violation as v:
                 v.case = dict(self.case, ops=list(self.case['ops']))
-                raise
+                if ctx.should_raise(v, v.case):
+                    raise
 
         @rule(p=params)
         def create(self, p):
